@@ -103,7 +103,7 @@ func solveOne(ctxc *Ctx, o *Obligation, cfg solveCfg, idx int) {
 	os.WriteFile(file, []byte(q), 0o644)
 	timeout := cfg.timeout
 	if o.ExpectSat {
-		timeout = 3
+		timeout = 2
 	}
 	type ans struct{ solver, res, out string }
 	ch := make(chan ans, len(solvers))
@@ -139,6 +139,20 @@ func solveOne(ctxc *Ctx, o *Obligation, cfg solveCfg, idx int) {
 		o.Time = time.Since(t0).Seconds()
 	}
 	if o.ExpectSat {
+		if definite == "unsat" && o.PrePC != nil {
+			// dead path? (the code before the loop is already unreachable under the preconditions)
+			pre := &Obligation{PC: o.PrePC, Goal: "false"}
+			qf := filepath.Join(cfg.dir, fmt.Sprintf("q%05d_pre.smt2", idx))
+			os.WriteFile(qf, []byte(buildQuery(ctxc, pre, false)), 0o644)
+			for _, s := range solvers {
+				if r, _ := runSolver(context.Background(), s, qf, 3); r == "unsat" {
+					o.Status, o.Solver = "proved", "dead-path("+s.name+")"
+					return
+				} else if r == "sat" {
+					break
+				}
+			}
+		}
 		if definite == "unsat" {
 			o.Status = "vacuous"
 		} else {
